@@ -154,21 +154,25 @@ def _driver(nt, inp):
     from fast_ticc.admm import solver
     from fast_ticc import matrix_compression as mc
     maxit, cb = int(nt.get('maxit', 2)), bool(nt.get('cb'))
-    for (N, W) in ((1, 1), (2, 1), (1, 2)):
+    # the witness's own budget at rho = 1, and long runs at larger rho where the *dual* residual is the
+    # binding half of the stopping rule (the engine's counterexample is about what the stopping rule is
+    # told, which tiny budgets cannot show on concrete data)
+    for (N, W, rho0, budget, lam, tol) in ((1, 1, 1.0, maxit, 0.2, 1e-3), (2, 1, 1.0, maxit, 0.2, 1e-3),
+                                           (1, 2, 1.0, maxit, 0.2, 1e-3), (2, 2, 10.0, 400, 0.11, 1e-6),
+                                           (2, 3, 8.0, 400, 0.0, 1e-6), (3, 1, 1.0, 400, 0.0, 1e-6)):
         n = N * W
         L = n * (n + 1) // 2
         rng = np.random.default_rng(4)
         A = rng.standard_normal((n, n))
         S = A @ A.T + np.eye(n)
-        lam = 0.2
         upd = (lambda rho, rp, tp, rd, td: rho * 2.0 if rp > rd else rho / 2.0) if cb else None
-        got = np.asarray(solver.run_admm_optimization(_args(N, W, lam, 1.0, maxit=maxit, rho_update=upd,
-                                                            atol=1e-3, rtol=1e-3), S), float)
-        rho = 1.0
+        got = np.asarray(solver.run_admm_optimization(_args(N, W, lam, rho0, maxit=budget, rho_update=upd,
+                                                            atol=tol, rtol=tol), S), float)
+        rho = rho0
         x = z = u = np.zeros(L)
-        for k in range(maxit):
+        for k in range(budget):
             zo = z
-            a = _args(N, W, lam, rho, atol=1e-3, rtol=1e-3)
+            a = _args(N, W, lam, rho, atol=tol, rtol=tol)
             x = solver.admm_update_x(a, u, z, S)
             z = solver.admm_update_z(a, u, x)
             u = solver.admm_update_u(u, x, z)
@@ -182,7 +186,8 @@ def _driver(nt, inp):
                     rho = new
         if got.shape != np.asarray(x).shape or not np.allclose(got, x, rtol=1e-10, atol=1e-12):
             return {'reproduced': True, 'signature': 'driver-differs-from-reference-iteration',
-                    'observed': {'N': N, 'W': W, 'got': got.tolist(), 'reference': np.asarray(x).tolist()}}
+                    'observed': {'N': N, 'W': W, 'rho': rho0, 'budget': budget, 'stopped_reference_at': k,
+                                 'max_abs_difference': float(np.max(np.abs(got - np.asarray(x)))) if got.shape == np.asarray(x).shape else None}}
     return {'reproduced': False, 'signature': None, 'observed': {}}
 
 
